@@ -8,7 +8,8 @@ THOROUGH_S = 600
 RULE = ('seeded scenarios on H-SRV: front-end x framing x single/multi x flags x 1-3 connections x <=8 requests each, '
         'one frame per read or pipelined; data-access requests plus the other services (diagnostic sub-functions incl. force listen '
         'only, file records, FIFO, device identification, event counters) and an application-defined function code that 10 % of the '
-        'servers have registered (echo) and the others must refuse with exception 01; a run is non-trivial when >=1 request was executed; distinct = distinct '
+        'servers have registered (echo) and the others must refuse with exception 01; in 15 % of the multi-connection runs the peer '
+        'of one connection vanishes (close or reset) at an arbitrary instant, also mid-frame, while the others carry on; a run is non-trivial when >=1 request was executed; distinct = distinct '
         '(actor, event-kind) sequence of the kernel log + front-end + framing')
 ASSUMPTIONS = ['reliable ordered byte streams / loss-free datagrams (fault-free network: C09 is about the response relation, not about framing faults)',
                'reference codec ref/codec.py parses the server output (spec-derived, shares no code with pymodbus)',
@@ -19,7 +20,7 @@ CLASSES = ('response-missing', 'response-extra', 'response-unexpected', 'respons
 
 PROFILE = {'invalid_rate': 0.15, 'opaque_rate': 0.1, 'unknown_unit_rate': 0.2, 'multi_rate': 0.45,
            'broadcast_rate': 0.25, 'max_conns': 3, 'max_reqs': 8, 'pipeline_rate': 0.25, 'cut_rate': 0.2,
-           'listen_only': True, 'custom_rate': 0.1}
+           'listen_only': True, 'custom_rate': 0.1, 'peer_close_rate': 0.15}
 
 
 def generate(rng, tier, index):
@@ -52,6 +53,7 @@ def execute(scn):
     out['probes']['requests_pipelined'] = sum(1 for reqs in scn['conns'] for r in reqs if r.get('join'))
     out['probes']['absent_unit_requests'] = sum(1 for reqs in scn['conns'] for r in reqs
                                                 if not scn.get('single', True) and str(r['u']) not in scn['units'])
+    out['probes']['peer_closed_connections'] = len(scn.get('peer_closes') or [])
     out['probes']['broadcast_requests'] = sum(1 for reqs in scn['conns'] for r in reqs if r.get('tag') == 'broadcast')
     return out
 
